@@ -22,13 +22,13 @@ cp "$D/change_$I.diff" "$OUT/patch.diff"; cp "$D/demo_$I.py" "$OUT/demo.py"; cp 
 cd "$WT" && git apply "$OUT/patch.diff" || { echo "does not apply"; exit 2; }
 results=""
 for c in "$@"; do
-  out=$(cd /verif && ARMMC_REPO="$WT" ./check $c 2>&1); rc=$?
+  out=$(cd /verif && ARMMC_REPO="$WT" ARMMC_OUT=/tmp/seed_out_scratch ./check $c 2>&1); rc=$?
   nv=$(echo "$out" | grep -c "^VIOLATION")
   results="$results $c:rc=$rc:violations=$nv"
   echo "$out" | grep -A2 "^VIOLATION" | head -6
 done
 git -C "$WT" checkout -q -- .
-(cd /verif && git checkout -q -- evidence 2>/dev/null)
+rm -rf /tmp/seed_out_scratch
 echo "RESULT $SID:$results"
 python3 - "$OUT" "$SID" "$PROP" "$base" "$withc" "$tests" "$results" <<'EOF'
 import json, sys
